@@ -135,6 +135,21 @@ def generate(seed: int, tier: str = "quick") -> dict:
             program.append({"bar": b, "phase": PHASES[ph], "op": "aave.repay", "m": "aave0", "a": {"token": {"borrowed": rp.randint(0, 2)}, "amount": {"f": "debt", "x": rp.choice(["0.05", "0.2"])}}})
         else:
             program.append({"bar": b, "phase": PHASES[ph], "op": "aave.withdraw", "m": "aave0", "a": {"token": {"supplied": rp.randint(0, 3)}, "amount": {"f": "ref_max_withdraw", "x": "0.5"}}})
+    # refused risk-increasing requests (withdrawal / borrow / collateral-flag removal beyond the limit) in a bar of their
+    # own: a call that was refused must not tip the end-of-bar decision "liquidated iff health factor < 1"
+    for _ in range(rf.choice([0, 1, 1, 2])):
+        b = rf.randint(1, nb - 1)
+        ph = rf.choice([1, 3, 3, 4])
+        r = rf.random()
+        if r < 0.6:
+            o = {"op": "aave.withdraw", "a": {"token": {"supplied": rf.randint(0, 3)}, "amount": {"f": "ref_max_withdraw", "x": rf.choice(["1.02", "1.5", "3"]), "q": False}}}
+        elif r < 0.85:
+            o = {"op": "aave.borrow", "a": {"token": rf.choice(toks), "amount": {"f": "ref_max_borrow", "x": rf.choice(["1.05", "2", "10"]), "q": False}}}
+        else:
+            o = {"op": "aave.change_collateral", "a": {"token": {"supplied": rf.randint(0, 3)}, "collateral": False}}
+        o.update({"bar": b, "phase": PHASES[ph], "m": "aave0"})
+        program.append(o)
+        faults.append({"kind": "reject:" + o["op"].split(".")[1] + ":beyond_limit", "bar": b})
     program = [p for _, p in sorted(enumerate(program), key=lambda e: (e[1]["bar"], PHASES.index(e[1]["phase"]), e[0]))]
     return {"property": ID, "seed": seed, "world": world, "program": program, "faults": faults}
 
